@@ -144,6 +144,76 @@ def run_stored(ctx):
                 histories=dist.get("histories", 0), records=dist.get("records", 0))
 
 
+def _ops_parts(line):
+    """pre=[i:bytes ...] ret=<...> post=[i:bytes ...]  ->  (pre map, ret, post map) or None"""
+    try:
+        a = line.index("pre=[") + 5
+        b = line.index("] ret=", a)
+        c = line.index(" post=[", b)
+        pre = dict(x.split(":", 1) for x in line[a:b].split())
+        post = dict(x.split(":", 1) for x in line[c + 7:line.rindex("]")].split())
+        return pre, line[b + 6:c], post
+    except ValueError:
+        return None
+
+
+def _ops_map_diff(m, x, limit=6):
+    out = []
+    for k in sorted(set(m) | set(x), key=lambda h: int(h, 16)):
+        if m.get(k) != x.get(k):
+            out.append("record %s: model=%s impl=%s" % (k, m.get(k, "<absent>"), x.get(k, "<absent>")))
+    return "; ".join(out[:limit]) + (" ; ... %d records differ" % len(out) if len(out) > limit else "")
+
+
+def run_ops(ctx):
+    """database level (L3): the core mutations as storage programs (StoredDbOps.v: so_open ;; so_q_insert_node / so_q_insert_values /
+    so_q_insert_edge, run by cp_run on the extracted model of storage.rs opened on the IMAGE of a real file) vs the raw records of
+    the real file after the same query of the public API"""
+    exe, dlog = vlib.build_driver()
+    if exe is None:
+        raise RuntimeError("driver build failed: " + dlog)
+    tdir, blog = vlib.cargo_build("hx_core", "release", features=["h4_dbvec"] if wrapper_present() else None)
+    if tdir is None:
+        raise RuntimeError("harness build failed: " + blog)
+    w = os.path.join(ctx.workdir, "ops")
+    os.makedirs(w, exist_ok=True)
+    n, steps = (150, 25) if ctx.tier == "quick" else (2500, 40)
+    rc, out = vlib.sh([os.path.join(tdir, "hx_core"), "ops", "--seed", str(ctx.seed + 606), "--n", str(n), "--steps", str(steps), "--out", w], timeout=6000)
+    if rc != 0:
+        raise RuntimeError("ops harness failed: " + out[-2000:])
+    rc, err = run_driver(exe, os.path.join(w, "cases.txt"), os.path.join(w, "model.txt"), timeout=6000)
+    cases, model, impl, hist = (read_lines(os.path.join(w, f)) for f in ("cases.txt", "model.txt", "impl.txt", "hist.txt"))
+    dis = []
+    mismatches = 0
+    for i, c in enumerate(cases):
+        m = model[i] if i < len(model) else "<missing>"
+        x = impl[i] if i < len(impl) else "<missing>"
+        if m == x:
+            continue
+        mismatches += 1
+        if len(dis) >= 8:
+            continue
+        h = hist[i] if i < len(hist) else ""
+        pm, px = _ops_parts(m), _ops_parts(x)
+        if pm is None or px is None:
+            cls, detail = ("stored-ops-open-mismatch", "the storage model could not open the file image") if m == "open-failed" else ("stored-ops-mismatch", "model line: " + m[:300])
+        elif pm[0] != px[0]:
+            cls, detail = "stored-ops-open-mismatch", "live records of the storage model after opening the file image differ from the raw records of the real file: " + _ops_map_diff(pm[0], px[0])
+        else:
+            cls = "stored-ops-mismatch"
+            detail = ("result: model=%s impl=%s; " % (pm[1], px[1]) if pm[1] != px[1] else "result %s agrees; " % pm[1]) + "records after the operation: " + (_ops_map_diff(pm[2], px[2]) or "equal")
+        dis.append(dict(what="stored-database operation, case %d: the storage program of StoredDbOps.v on the image of the real file differs from what the real query wrote: %s (operation %s)"
+                             % (i, detail[:3000], h[:3000]),
+                        case=c[:3000], model=m[:6000], impl=x[:6000], history=h[:6000], cls=cls))
+    failures = [dict(cls=l.split(" ")[0], what=l[:6000]) for l in read_lines(os.path.join(w, "oracle.txt"))]
+    # a disagreement of the storage programs with a real file is a failure of the property's proof chain with a concrete input
+    failures += [dict(cls=d["cls"], what=d["what"][:6000]) for d in dis]
+    dist, ev, nt, samples = merge_stats([os.path.join(w, "stats.json")])
+    dist["lines-identical"] = len(cases) - mismatches
+    return dict(cases=len(cases), disagreements=dis, failures=failures, dist=dist, nontrivial=nt, samples=samples, mismatches=mismatches,
+                histories=dist.get("histories", 0), records=dist.get("records", 0), file_bytes=dist.get("file_bytes", 0))
+
+
 def run(ctx):
     notes = []
     co = None
@@ -158,6 +228,11 @@ def run(ctx):
         sto = run_stored(ctx)
     else:
         notes.append("database-level correspondence (extracted load_db on the raw records of real files) SKIPPED: agdb::verif::VStorage is not in %s" % vlib.REPO)
+    ops = None
+    if vstorage_present():
+        ops = run_ops(ctx)
+    else:
+        notes.append("stored-database operations (StoredDbOps.v programs on the image of real files) SKIPPED: agdb::verif::VStorage is not in %s" % vlib.REPO)
     n, steps = (50, 30) if ctx.tier == "quick" else (1200, 60)
     r = run_db(ctx, "all", n, steps, variants="file,mapped,any_file,any_mapped", maintenance=True)
     # index-heavy histories as well: several indexes created and removed in varying order before the maintenance operation
@@ -204,6 +279,33 @@ def run(ctx):
                 % (sto["histories"], sto["records"], sto["cases"])) + rule
         notes.append("stored-database correspondence: %d files loaded by the extracted load_db, %d disagreements, %d oracle failures"
                      % (sto["cases"], len(sto["disagreements"]), len([f for f in sto["failures"] if f["cls"] != "stored-db-mismatch"])))
+    if ops is not None:
+        failures = ops["failures"] + failures
+        disagreements = ops["disagreements"] + disagreements
+        evaluations += ops["cases"]
+        nontrivial += ops["nontrivial"]
+        samples = ops["samples"][:2] + samples
+        dist.update({"ops:" + k: v for k, v in ops["dist"].items()})
+        d = ops["dist"]
+        rule = ("stored-database operations (L3, the core mutations as storage programs): %d generated histories of mutating queries and transactions through the public API on a DbFile (removals, so that the "
+                "graph's free list is non-empty in part of the cases; optimize_storage / shrink_to_fit / drop+reopen at random points; no index on any key the case uses), the database dropped; then 1-3 chained "
+                "cases per file (%d cases: %d insert-node, %d insert-values, %d insert-edge): PRE = the bytes of the closed file; the file is reopened as a real database (DbFile::new, handles rebuilt by "
+                "from_storage), ONE query of the public API runs — QueryBuilder::insert().nodes().values([l]) / insert().values([l]).ids(existing id) / insert().edges().from(f).to(t), l = 0-4 pairs with inline "
+                "and out-of-line keys and values — and the database is dropped; POST = every live record read RAW through the storage layer only (VStorage<FileStorage>, %d records in all). The extracted "
+                "model of storage.rs OPENS THE FILE IMAGE (Storage.with_data on the %d file bytes, as FileStorage::new does), its live records must equal the raw records of the real file before the "
+                "operation (class stored-ops-open-mismatch), then cp_run (st_step ops_file) executes `h <~ so_open 1 ;; so_q_insert_node h l | so_q_insert_values h id l | so_q_insert_edge h f t` of "
+                "StoredDbOps.v and the line `every live record index:bytes before, returned id, every live record index:bytes after` must be IDENTICAL to the implementation's (EXACT comparison: record "
+                "indexes in allocation order, spare-capacity bytes of every vector record, out-of-line value records, the returned node / edge id; nothing is normalised; class stored-ops-mismatch); "
+                "non-trivial = a case that pops the free list, writes an out-of-line value, replaces an existing pair or inserts an edge. "
+                % (ops["histories"], ops["cases"], d.get("kind:insert_node", 0), d.get("kind:insert_values", 0), d.get("kind:insert_edge", 0), ops["records"], ops["file_bytes"])) + rule
+        notes.append("stored-database operations: %d cases (insert-node %d: %d new slot / %d free-list pop; insert-edge %d: %d new slot / %d free-list pop; insert-values %d: %d pairs replaced, %d pairs appended, "
+                     "%d on an element without properties; %d out-of-line keys/values written), %d lines identical to the model's byte for byte, %d disagreements, %d oracle failures"
+                     % (ops["cases"], d.get("kind:insert_node", 0), d.get("insert_node:new-slot(grow)", 0), d.get("insert_node:free-list-pop", 0),
+                        d.get("kind:insert_edge", 0), d.get("insert_edge:new-slot(grow)", 0), d.get("insert_edge:free-list-pop", 0),
+                        d.get("kind:insert_values", 0), d.get("insert_values:pairs-replaced(replace branch)", 0), d.get("insert_values:pairs-appended(push branch)", 0),
+                        d.get("insert_values:element-without-properties", 0), d.get("out-of-line keys/values written (estimated)", 0),
+                        ops["cases"] - ops["mismatches"], ops["mismatches"],
+                        len([f for f in ops["failures"] if not f["cls"].startswith("stored-ops-")])))
     return dict(
         evaluations=evaluations, distinct_nontrivial=nontrivial, samples=samples, dist=dist, rule=rule,
         failures=failures, disagreements=disagreements,
